@@ -1,7 +1,13 @@
 use std::mem;
 use std::ptr;
+#[cfg(not(multiqueue2_verif))]
 use std::sync::atomic::{AtomicUsize, Ordering};
+#[cfg(not(multiqueue2_verif))]
 use std::sync::Mutex;
+#[cfg(multiqueue2_verif)]
+use crate::verif_hooks::{AtomicUsize, Mutex};
+#[cfg(multiqueue2_verif)]
+use std::sync::atomic::Ordering;
 
 use crate::alloc;
 use crate::atomicsignal::AtomicSignal;
@@ -169,6 +175,21 @@ impl MemoryManager {
                 token.epoch.store(epoch, Ordering::Release);
             }
         }
+    }
+}
+
+#[cfg(multiqueue2_verif)]
+impl MemoryManager {
+    pub fn verif_layout(&self, out: &mut Vec<crate::verif_hooks::Loc>) {
+        use crate::verif_hooks::loc;
+        out.push(loc("mm_lock", 0, self.mem_manager.verif_addr()));
+        out.push(loc("wtf_lock", 0, self.wait_to_free.verif_addr()));
+        out.push(loc("mm_epoch", 0, self.epoch.verif_addr()));
+        out.push(loc("signal", 0, self.signal.verif_addr()));
+    }
+
+    pub fn verif_token_addr(token: *const MemToken) -> usize {
+        unsafe { (*token).epoch.verif_addr() }
     }
 }
 
